@@ -32,6 +32,8 @@ def main():
         kw = {"shift": 1} if op == "roll" else {}
         sizes = {n: int(v) for n, v in case["L"].items() if n in set(case["desc"])}
         desc = DC.desc_of(case)
+        if it.get("implicit"):
+            desc = ", ".join("".join(t) for t in case["intoks"])       # no '->': the output is chosen by the operation's rule
         for rep in (1, 2, 3):
             with warnings.catch_warnings():
                 warnings.simplefilter("ignore")
